@@ -29,6 +29,7 @@ class LockstepController:
         self.ref = refgen
         self.sched = sched
         self.mirrored = 0
+        self.index_draws = 0
         self.thresholds = {}
         self.deferred = None
         self.observe_assignments = False
@@ -249,14 +250,19 @@ def _run_case(case):
     rng = _random.Random(case.get("seed", 0))
     sched = Scheduler(rng, case.get("policy", "mixed"), case.get("script"))
     trace = []
+    refinterp.INDEX_CHOICES[0] = bool(case.get("transform_categoricals"))
     ctl = LockstepController(refinterp.run(prog, iters, samples, trace), sched)
     ctl.observe_assignments = _install_assignment_observer()
     ctl.thresholds = comparison_thresholds(prog)
     rngseam.set_controller(ctl)
     try:
+        import settings as _settings
+        _saved_tc = _settings.transform_categoricals
+        _settings.transform_categoricals = bool(case.get("transform_categoricals"))
         try:
             program = Parser().parse_string(text)
         except Exception as e:  # noqa
+            _settings.transform_categoricals = _saved_tc
             out["outcome"] = "polar_refused"
             out["error"] = f"{type(e).__name__}: {e}"[:300]
             return out
@@ -282,6 +288,10 @@ def _run_case(case):
             return out
     finally:
         rngseam.set_controller(None)
+        try:
+            _settings.transform_categoricals = _saved_tc
+        except NameError:
+            pass
 
     missing = ctl.drain()
     if rngseam.rng_fingerprint() != fp0:
@@ -292,6 +302,7 @@ def _run_case(case):
         return out
     out["draws"] = len(ctl.events)
     out["mirrored"] = ctl.mirrored
+    out["index_draws"] = sum(1 for e in ctl.events if case.get("transform_categoricals") and (e.get("ref") or {}).get("kind") == "finite")
 
     out["script"] = list(sched.used)
     out["n_extreme"] = sched.n_extreme
